@@ -205,7 +205,7 @@ func (e *iterEnv) inUse() int {
 	e.f.mu.Unlock()
 	defer e.f.mu.Lock()
 	n := e.db.PlainDB().Stats().InUse
-	for i := 0; i < 200 && closed > 0 && n > 0; i++ {
+	for i := 0; i < 25000 && closed > 0 && n > 0; i++ { // up to 5 s on a loaded machine
 		time.Sleep(200 * time.Microsecond)
 		n = e.db.PlainDB().Stats().InUse
 	}
@@ -294,7 +294,7 @@ func getAllCancelledByDriver(e *iterEnv, r *rng, nrows int, addViol func(violati
 }
 
 func (e *iterEnv) waitRowsClosed() {
-	deadline := time.Now().Add(2 * time.Second)
+	deadline := time.Now().Add(20 * time.Second)
 	for time.Now().Before(deadline) {
 		e.f.mu.Lock()
 		open := e.f.openRows
